@@ -33,6 +33,8 @@ LIB: dict[str, dict] = {
     "TOpToOther": _op("oth", [], outT="TOther"),
     "TMerge": _op("merge", [], inT="TColl", beh=["merge", "merge"]),
     "TFail": _op("fail", [], beh=["fail", "VerifProcError"]),
+    # static description only (C09/C17): the data-dependent failure of TFailIf is not part of the execution model
+    "TFailIf": _op("failif", [("bad", "fine")]),
     "TFailKI": _op("failki", [], beh=["fail", "KeyboardInterrupt"]),
     "TProbe": dict(kind=["probe"], params=[], inT="TData", outT="TData", declared=[], beh=["term", "probe"]),
     "TProbeP": dict(kind=["probe"], params=[("a", None)], inT="TData", outT="TData", declared=[], beh=["term", "probep"]),
